@@ -346,7 +346,8 @@ Proof.
   assert (Hl : (ndim s =? zlen order) = true).
   { unfold is_permb in H. apply andb_true_iff in H as [H _]. now rewrite Z.eqb_sym. }
   rewrite Hl. cbn [chk andthen]. destruct (zlen order =? 0); [reflexivity|].
-  destruct (forallb (fun x => x =? 1) order); [reflexivity|].
+  destruct ((ndim s =? 1) && forallb (fun x => x =? 1) order); [reflexivity|].
+  rewrite sorted_perm_bool by apply ndim_nonneg. rewrite H. cbn [chk andthen].
   rewrite np_transpose_ok_nonneg; [now rewrite H|].
   intros x Hx. unfold is_permb in H. apply andb_true_iff in H as [_ H]. apply modes_ok_spec in H as [Hr _].
   specialize (Hr x Hx). lia.
